@@ -5,6 +5,7 @@ import XmppModel.Model.SendGuard
 import XmppModel.Model.ValueForms
 import XmppModel.Model.Transport
 import XmppModel.Model.SendFlush
+import XmppModel.Model.SendKinds
 /-! Driver for C05 (see harness/c05 for the line protocol).
 
     tx <entry> <ns> <from|-> <startTok|-> <toks>   -> <status> <canonical wire tokens>
@@ -24,6 +25,9 @@ import XmppModel.Model.SendFlush
                                                        up before its first token; run on the observed lock order)
     pend <n> <same|diff> <entry> <ns> <from|-> <startTok|-> <toks> <form>
                                                    -> the answer of the `tx` line (n requests are pending when the call is made)
+    serveiter <ns> <from|-> <typ> <reply toks>    -> alive <canonical wire> | ended -
+                                                       (SendKinds.serveIter: handler tokens, automatic reply iff due, session ends
+                                                       when the handler left an element open)
     conc <n> <i0,i1,…>                             -> ok | bad   (is the observed order of
                                                        complete blocks a permutation of the calls)
 -/
@@ -82,8 +86,22 @@ def handedForm (entry start form : String) (ts : List Tok) : Option (List Tok) :
   | "pres" => match stanzaSendToks .presence fresh ts with | .ok o => some o | .error _ => none
   | _ => none
 
+/-- the automatic reply of an unanswered get/set IQ `q1` from `peer@example.net/r` -/
+def autoReplyToks : List Tok :=
+  [.start ⟨"", "iq"⟩ [⟨⟨"", "id"⟩, "q1"⟩, ⟨⟨"", "to"⟩, "peer@example.net/r"⟩, ⟨⟨"", "type"⟩, "error"⟩],
+   .start ⟨"", "error"⟩ [⟨⟨"", "type"⟩, "cancel"⟩],
+   .start ⟨"urn:ietf:params:xml:ns:xmpp-stanzas", "service-unavailable"⟩ [],
+   .stop ⟨"urn:ietf:params:xml:ns:xmpp-stanzas", "service-unavailable"⟩,
+   .stop ⟨"", "error"⟩, .stop ⟨"", "iq"⟩]
+
 def handle0 (args : List String) : Option String :=
   match args with
+  | ["serveiter", ns, from_, typ, toks] => do
+    let fr ← if from_ == "-" then some "" else hexDecodeStr from_
+    let cfg : Cfg := ⟨ns, fr⟩
+    let ts ← if toks == "-" then some [] else decToks toks
+    let r := SendKinds.serveIter (typ == "get" || typ == "set") "q1" ts false autoReplyToks
+    if r.2 then pure "ended -" else pure s!"alive {encToks (canon cfg.ns (wireToks cfg fresh r.1))}"
   | ["queued", ns, from_, entry, start, toks, form, _wentry, wmode, wtoks, order] => do
     let fr ← if from_ == "-" then some "" else hexDecodeStr from_
     let cfg : Cfg := ⟨ns, fr⟩
